@@ -118,7 +118,7 @@ MCATS = ['text', 'space', 'par', 'expr', 'strong', 'line', 'block', 'hash', 'ite
 INLINE_KINDS = ['Escape', 'Shorthand', 'SmartQuote', 'Link', 'Label', 'Ref']     # prose that is not a Text token (the property lists them)
 
 
-def explore_markup(S, K, want=('C08',)):
+def explore_markup(S, K, want=('C08',), focus_last=False):
     """collect_markup_repr + convert_markup_impl: interior whitespace maps 1-1; children conserved; mixed lines suppress breaks"""
     from .lists import show_atoms, atoms_modes
     kt = T.KT
@@ -137,6 +137,9 @@ def explore_markup(S, K, want=('C08',)):
                     ok = False          # a line comment ends at a newline
                 if c == 'hash' and nxt not in ('expr',):
                     ok = False          # a hash is followed by its expression
+            # quick tier: the longest sequences only where they add something over the shorter ones - a whitespace token between two children
+            if focus_last and k == K and k >= 3 and not any(c in ('space', 'par') for c in combo[1:-1]):
+                ok = False
             if ok:
                 yield combo
 
